@@ -1,4 +1,5 @@
 """C12 - data written through the library is read back intact from a conformant target."""
+PYOPT = 2  # every second shard also runs in an interpreter started with -O
 LEVEL = "exploration"
 RULE = (
     "histories of 20-200 facade commands mixing WRITE(10/12/16), WRITE SAME(10/16 incl. NDOB), READ(10/12/16), SYNCHRONIZE "
